@@ -577,6 +577,96 @@ def r144(ctx, R):
     R.count('R14.4', n, 36)
 
 
+def _gates_of_test(ctx, f, t):
+    """[(minv, polarity)] for the version gates an if-test depends on
+    (flag names are followed to their single definition)."""
+    from psa.rules.c05 import single_def
+    out = []
+
+    def rec(e, pol, depth=0):
+        if depth > 4:
+            return
+        if isinstance(e, ast.UnaryOp) and isinstance(e.op, ast.Not):
+            rec(e.operand, not pol, depth)
+            return
+        if isinstance(e, ast.BoolOp):
+            for v in e.values:
+                rec(v, pol, depth)
+            return
+        g = ctx.gates.gate_of(f, e)
+        if g is not None and g.minv:
+            out.append((g.minv, pol))
+            return
+        if isinstance(e, ast.Name):
+            d = single_def(f, e.id)
+            if d is not None:
+                rec(d.value, pol, depth + 1)
+    rec(t, True)
+    return out
+
+
+def _keys_written(stmts):
+    ks = set()
+    for s in stmts:
+        for n in ast.walk(s):
+            if isinstance(n, ast.Subscript) and isinstance(
+                    n.ctx, ast.Store) and isinstance(
+                        n.slice, ast.Constant) and isinstance(
+                            n.slice.value, str):
+                ks.add(n.slice.value)
+            if isinstance(n, ast.Attribute) and isinstance(
+                    n.ctx, ast.Store) and n.attr in (
+                        'last_modified', 'cache_control', 'status', 'body',
+                        'content_type'):
+                ks.add('.' + n.attr)
+            if isinstance(n, ast.Call) and isinstance(
+                    n.func, ast.Attribute) and n.func.attr == 'append' and \
+                    n.args and isinstance(n.args[0], ast.Constant):
+                ks.add('append:%s' % n.args[0].value)
+    return ks
+
+
+def gated_keys(ctx, fs):
+    """'+N:key' for every response key / header written under a version
+    gate in the handler layer reachable from the route."""
+    out = set()
+    for f in ctx.cg.reachable(fs):
+        mn = f.module.name
+        if not (mn.startswith('placement.handlers.') or mn in (
+                'placement.util', 'placement.lib')):
+            continue
+        for n in own_nodes(f.node):
+            if not isinstance(n, ast.If):
+                continue
+            for minv, pol in _gates_of_test(ctx, f, n.test):
+                for k in _keys_written(n.body):
+                    out.add('%s%d:%s' % ('+' if pol else '-', minv[1], k))
+                for k in _keys_written(n.orelse):
+                    out.add('%s%d:%s' % ('-' if pol else '+', minv[1], k))
+    return sorted(out)
+
+
+def r146(ctx, R):
+    p = os.path.join(HERE, 'tables', 'gated_keys.json')
+    with open(p) as fh:
+        frozen = json.load(fh)['routes']
+    n = 0
+    for path, meth, fs in C.routes(ctx):
+        if path == '':
+            continue
+        key = '%s %s' % (meth, path)
+        n += 1
+        got = gated_keys(ctx, fs)
+        want = sorted(frozen.get(key, []))
+        R.ob('R14.6', 'gated-keys:%s' % key, got == want,
+             'the response keys and headers written under each version gate '
+             'are the confirmed ones',
+             'added %s removed %s' % (sorted(set(got) - set(want)),
+                                      sorted(set(want) - set(got))),
+             func=fs[0])
+    R.count('R14.6', n, 36)
+
+
 def r145(ctx, R):
     prog = ctx.prog
     f = prog.func('placement.deploy:deploy')
@@ -640,3 +730,4 @@ def run(ctx, R):
     r143(ctx, R, table)
     r144(ctx, R)
     r145(ctx, R)
+    r146(ctx, R)
